@@ -567,6 +567,7 @@ fn mutants(corpus_path: &str, seed: u64, iters: u64) {
     let mut rng = Rng(seed.wrapping_mul(0x2545F4914F6CDD1D) ^ 0x7654321);
     let mut seen: std::collections::HashSet<String> = std::collections::HashSet::new();
     let (mut tried, mut valid, mut inside) = (0u64, 0u64, 0u64);
+    let mut why: BTreeMap<u32, (u64, String)> = BTreeMap::new();
     while tried < iters && !seeds.is_empty() {
         tried += 1;
         let (a0, i0) = &seeds[rng.below(seeds.len())];
@@ -587,16 +588,33 @@ fn mutants(corpus_path: &str, seed: u64, iters: u64) {
             let whole = format!("# [ derive_ex ( {at} ) ] {it}");
             let Ok(w2) = TokenStream::from_str(&whole) else { continue };
             if syn::parse2::<syn::DeriveInput>(w2.clone()).is_err() { continue; }
+            ser::WHY.with(|w| w.set(0));
             if let Some(si) = ser::item(w2) {
                 inside += 1;
                 println!("(case {} derive {} {si})", ser::q(&format!("mut/{seed}/{tried}")), ser::q(&whole));
+            } else {
+                let e = why.entry(ser::WHY.with(|w| w.get())).or_insert((0, whole.clone()));
+                e.0 += 1;
             }
-        } else if let (Some(sa), Some(si)) = (ser::derive_ex_args(a2), ser::item(i2)) {
-            inside += 1;
-            println!("(case {} attr {} {} {sa} {si})", ser::q(&format!("mut/{seed}/{tried}")), ser::q(&at), ser::q(&it));
+        } else {
+            ser::WHY.with(|w| w.set(0));
+            if let (Some(sa), Some(si)) = (ser::derive_ex_args(a2), ser::item(i2)) {
+                inside += 1;
+                println!("(case {} attr {} {} {sa} {si})", ser::q(&format!("mut/{seed}/{tried}")), ser::q(&at), ser::q(&it));
+            } else {
+                let e = why.entry(ser::WHY.with(|w| w.get())).or_insert((0, format!("{at} | {it}")));
+                e.0 += 1;
+            }
         }
     }
     eprintln!("mutants: tried {tried}, valid items {valid}, inside the model's fragment {inside}");
+    if std::env::var("XCHECK_WHY").is_ok() {
+        let mut v: Vec<_> = why.into_iter().collect();
+        v.sort_by_key(|(_, (n, _))| std::cmp::Reverse(*n));
+        for (line, (n, ex)) in v.into_iter().take(25) {
+            eprintln!("outside: ser.rs:{line} x{n}  e.g. {}", ex.chars().take(260).collect::<String>());
+        }
+    }
 }
 
 fn main() {
